@@ -70,13 +70,11 @@ func (m *Module) HandleDagazQuadSample(ctx context.Context, msg hwebsocket.Msg) 
 			WithTag("msg_type", msg.Type)
 	}
 
-	m.state.mutex.Lock()
-	defer m.state.mutex.Unlock()
-
-	for _, newQuad := range newQuadSample.Samples {
-		quad := NewQuadFromProtobuf(newQuad)
-		m.state.SpatialPartition.InsertQuad(quad)
+	quads := make([]Quad, len(newQuadSample.Samples))
+	for i, newQuad := range newQuadSample.Samples {
+		quads[i] = NewQuadFromProtobuf(newQuad)
 	}
+	m.state.insertQuads(quads)
 
 	return nil
 }
@@ -94,21 +92,7 @@ func (m *Module) HandleDagazGetGroundPlane(ctx context.Context, respond hwebsock
 			WithTag("msg_type", msg.Type)
 	}
 
-	ray := NewRayFromProtobuf(req.Ray)
-
-	m.state.mutex.Lock()
-	quadHit, _ := m.state.SpatialPartition.IntersectQuad(ray)
-
-	if quadHit == nil {
-		// create an invalid quad to be able to have a response:
-		quadHit = &Quad{
-			Center:  Vector3f{0, 0, 0},
-			Extents: Vector3f{0, 0, 0},
-			Normal:  Vector3f{0, 0, 0},
-		}
-	}
-	sampleGroundQuad := quadHit.ToProtobuf()
-	m.state.mutex.Unlock()
+	sampleGroundQuad := m.state.groundPlane(NewRayFromProtobuf(req.Ray))
 
 	respond.Send(&dagazpb.DagazGetGroundPlaneResponse{
 		Type:      dagazpb.MsgType_MSG_TYPE_DAGAZ_GET_GROUND_PLANE_RESPONSE,
@@ -132,13 +116,7 @@ func (m *Module) HandleDagazGetRegion(ctx context.Context, respond hwebsocket.Re
 			WithTag("msg_type", msg.Type)
 	}
 
-	m.state.mutex.Lock()
-	regionQuads := m.state.SpatialPartition.GetRegion(NewVector3fFromProtobuf(req.Min), NewVector3fFromProtobuf(req.Max))
-	regionQuadsProtobuf := make([]*dagazpb.Quad, len(regionQuads))
-	for i := 0; i < len(regionQuads); i++ {
-		regionQuadsProtobuf[i] = regionQuads[i].ToProtobuf()
-	}
-	m.state.mutex.Unlock()
+	regionQuadsProtobuf := m.state.region(NewVector3fFromProtobuf(req.Min), NewVector3fFromProtobuf(req.Max))
 
 	respond.Send(&dagazpb.DagazGetRegionResponse{
 		Type:      dagazpb.MsgType_MSG_TYPE_DAGAZ_GET_REGION_RESPONSE,
@@ -162,9 +140,7 @@ func (m *Module) HandleDagazGetDebugInfo(ctx context.Context, respond hwebsocket
 			WithTag("msg_type", msg.Type)
 	}
 
-	m.state.mutex.Lock()
-	debugInfo := m.state.SpatialPartition.GetDebugInfo()
-	m.state.mutex.Unlock()
+	debugInfo := m.state.debugInfo()
 
 	respond.Send(&dagazpb.DagazGetDebugInfoResponse{
 		Type:           dagazpb.MsgType_MSG_TYPE_DAGAZ_GET_DEBUG_INFO_RESPONSE,
